@@ -11,6 +11,14 @@
 (* injective function of this record (the harness' own builder), so        *)
 (* equality of records is equality of byte strings.                        *)
 (*                                                                         *)
+(* Two kinds of field are NOT opaque, because an implementation that       *)
+(* parses the TBSCertificate and encodes it again writes them afresh: the  *)
+(* serial number (an INTEGER) and every length and object identifier.      *)
+(* Section "DER primitives" states their one DER encoding (X.690 8.1.3,    *)
+(* 8.3, 8.19) with the laws that make it the only one; the serial numbers  *)
+(* of the case space are given by VALUE and the octets the harness puts    *)
+(* into the certificates are IntOctets(value).                             *)
+(*                                                                         *)
 (* Named clause EmptyExtensionsKept.  RFC 5280 has Extensions ::= SEQUENCE *)
 (* SIZE (1..MAX); neither it nor RFC 6962 says what the TBSCertificate     *)
 (* "without the poison extension" is when the poison was the only          *)
@@ -49,6 +57,59 @@ Count(exts, id) == Cardinality(Positions(exts, id))
 First(exts, id) == CHOOSE i \in Positions(exts, id) : \A j \in Positions(exts, id) : i <= j
 Delete(s, i) == SubSeq(s, 1, i - 1) \o SubSeq(s, i + 1, Len(s))
 Keep(s, P(_)) == SelectSeq(s, P)
+
+(* ---------- DER primitives (X.690): what "every other DER byte ... untouched" means for a field that is
+              re-encoded rather than copied ---------- *)
+\* An integer is [neg, mag]: its sign and the base-256 digits of its magnitude, most significant first, without
+\* leading zeros (<<>> is zero; there is no negative zero).  TLC's integers are 32 bit, serial numbers are up to
+\* 20 (in the wild 21) octets, so the arithmetic is on digit strings.
+IntV(neg, mag) == [neg |-> neg, mag |-> mag]
+IsIntV(v) == (v.mag # <<>> => v.mag[1] # 0) /\ (v.mag = <<>> => ~v.neg)
+RECURSIVE Strip(_)
+Strip(s) == IF s # <<>> /\ Head(s) = 0 THEN Strip(Tail(s)) ELSE s
+\* s + 1 modulo 256^Len(s)
+RECURSIVE Inc(_)
+Inc(s) == IF s = <<>> THEN <<>>
+          ELSE IF s[Len(s)] < 255 THEN [s EXCEPT ![Len(s)] = @ + 1]
+          ELSE Append(Inc(SubSeq(s, 1, Len(s) - 1)), 0)
+\* two's complement over Len(s) octets: 256^Len(s) - s (modulo 256^Len(s))
+Complement(s) == Inc([i \in DOMAIN s |-> 255 - s[i]])
+\* X.690 8.3.2: "the bits of the first octet and bit 8 of the second octet shall not all be ones and shall not all
+\* be zero" - the contents are the shortest two's complement form
+IsMinimalInt(o) == /\ Len(o) >= 1
+                   /\ Len(o) >= 2 => ~(o[1] = 0 /\ o[2] < 128) /\ ~(o[1] = 255 /\ o[2] >= 128)
+\* X.690 8.3.3: the contents octets are the two's complement binary number equal to the integer value
+IntValue(o) == IF o[1] < 128 THEN IntV(FALSE, Strip(o)) ELSE IntV(TRUE, Strip(Complement(o)))
+\* the encoding: a non-negative number whose leading digit has bit 8 set needs a 00 octet in front (0x80 is
+\* 00 80), a negative one is the complement of its magnitude over as many octets, with an ff octet in front unless
+\* bit 8 of the complement is set already.  -2^(8k-1) is where the magnitude has bit 8 set and the complement has it
+\* too (magnitude 80 00..00, contents 80 00..00: k octets, not k+1).
+IntOctets(v) ==
+  IF ~v.neg THEN (IF v.mag = <<>> THEN <<0>> ELSE IF v.mag[1] >= 128 THEN <<0>> \o v.mag ELSE v.mag)
+  ELSE LET t == Complement(v.mag) IN IF t[1] >= 128 THEN t ELSE <<255>> \o t
+\* the laws: the encoding is minimal, decodes to the value, and every minimal string is the encoding of its value -
+\* so a parser followed by an encoder reproduces the contents octets of a canonical INTEGER, whatever its sign
+IntEncodingLaw(v) == IsIntV(v) => IsMinimalInt(IntOctets(v)) /\ IntValue(IntOctets(v)) = v
+IntRoundTripLaw(o) == IsMinimalInt(o) => IsIntV(IntValue(o)) /\ IntOctets(IntValue(o)) = o
+
+\* digits of n > 0 in base b, most significant first, none for 0
+RECURSIVE Digits(_, _)
+Digits(n, b) == IF n = 0 THEN <<>> ELSE Append(Digits(n \div b, b), n % b)
+RECURSIVE Number(_, _)
+Number(d, b) == IF d = <<>> THEN 0 ELSE Number(SubSeq(d, 1, Len(d) - 1), b) * b + d[Len(d)]
+\* X.690 8.1.3 + 10.1: definite form, "encoded in the minimum number of octets": short form below 128, else
+\* 80+k followed by the k digits
+LenOctets(n) == IF n < 128 THEN <<n>> ELSE LET d == Digits(n, 256) IN <<128 + Len(d)>> \o d
+LenValue(o) == IF o[1] < 128 THEN o[1] ELSE Number(Tail(o), 256)
+IsMinimalLen(o) == IF o[1] < 128 THEN Len(o) = 1
+                   ELSE /\ Len(o) = 1 + (o[1] - 128) /\ Len(o) >= 2 /\ o[2] # 0 /\ (Len(o) = 2 => o[2] >= 128)
+LenLaw(n) == IsMinimalLen(LenOctets(n)) /\ LenValue(LenOctets(n)) = n
+\* X.690 8.19.2: a subidentifier is base 128, bit 8 set on all but the last octet, "the leading octet ... shall not
+\* have the value 0x80"
+ArcOctets(a) == IF a = 0 THEN <<0>> ELSE LET d == Digits(a, 128) IN [i \in DOMAIN d |-> IF i < Len(d) THEN d[i] + 128 ELSE d[i]]
+ArcValue(o) == Number([i \in DOMAIN o |-> o[i] % 128], 128)
+IsMinimalArc(o) == /\ Len(o) >= 1 /\ o[1] # 128 /\ o[Len(o)] < 128 /\ \A i \in 1..(Len(o) - 1) : o[i] >= 128
+ArcLaw(a) == IsMinimalArc(ArcOctets(a)) /\ ArcValue(ArcOctets(a)) = a
 
 (* ---------- RemoveExt: x509.RemoveSCTList / RemoveCTPoison ---------- *)
 \* "This function will fail if there is not exactly 1 extension of the type" - and RFC 5280 4.2:
@@ -124,8 +185,25 @@ EmbeddedRouteEntry(final, finalIssuerKey) ==
   LET b == RemoveExt(final, "SCTLIST") IN
   IF IsErr(b) THEN b ELSE Entry(finalIssuerKey, b)
 
-\* An SCT is [log, over]: `over` is the entry the log signed.  It verifies for an entry iff that is the entry.
-Verifies(sct, logKey, entry) == ~IsErr(entry) /\ sct.log = logKey /\ sct.over = entry
+\* "The log signed that precertificate".  A log is [name, scheme, compliant]: the signature scheme of its key
+\* (RFC 6962 2.1.4: ECDSA on P-256 or RSA of at least 2048 bits - `compliant`; other curves / sizes exist and a
+\* verifier for them needs the caller's explicit opt-in, property C05).  An SCT is [log, over, form]: `over` is the
+\* entry the log signed, `form` is how the octets of the signature value arrive in the opaque signature field.
+\* Named clause TrailingOctetsIgnored (the wording of property C05, spec SigVerify.tla FormOK: "bytes trailing a
+\* complete DER-encoded ECDSA or DSA value are ignored"): a complete DER Ecdsa-Sig-Value followed by further octets
+\* is still that log's signature over that entry, whatever and however many the octets are - logs that pad the field
+\* exist.  Nothing else is: octets INSIDE the SEQUENCE after s, a non-minimal INTEGER or length (not DER), a cut-off
+\* value; and an RSASSA-PKCS1-v1_5 value is a string of exactly the modulus' length, so an RSA value with an octet
+\* more or less is not one.
+ExactForms == {"exact"}
+TrailingForms == {"trail00", "trail0000", "trailFF", "trail32", "trailSig"}
+BrokenForms == {"inner", "padded", "longlen", "cut"}
+SigForms(scheme) == IF scheme = "ecdsa" THEN ExactForms \cup TrailingForms \cup BrokenForms ELSE ExactForms \cup {"trail00", "cut"}
+SigFormOK(form, scheme) == form \in ExactForms \/ (scheme = "ecdsa" /\ form \in TrailingForms)
+\* the SCT verifies for an entry under a log's key iff that log signed that entry and delivered a signature value
+Verifies(sct, log, entry) == ~IsErr(entry) /\ sct.log = log.name /\ sct.over = entry /\ SigFormOK(sct.form, log.scheme)
+\* ctutil.VerifySCT builds the verifier itself (no opt-in unless the process-wide switch is set)
+VerifySCT(sct, log, entry, optIn) == (log.compliant \/ optIn) /\ Verifies(sct, log, entry)
 
 (* ---------- laws ---------- *)
 OtherFieldsEqual(a, b) == /\ a.serial = b.serial /\ a.sig = b.sig /\ a.validity = b.validity
@@ -175,7 +253,22 @@ SameEntry(t, pre, scts, caKey, preKey) ==
   (Count(t.exts, "SCTLIST") = 0 /\ ~IsErr(pr) /\ (direct \/ pre.eku)) =>
       /\ pr = er
       /\ \A over \in {pr, Entry("otherKey", pr.tbs), Entry(pr.ikh, [pr.tbs EXCEPT !.serial = "other"])} :
-            Verifies([log |-> "L", over |-> over], "L", er) <=> over = pr
+            LET log == [name |-> "L", scheme |-> "ecdsa", compliant |-> TRUE] IN
+            Verifies([log |-> "L", over |-> over, form |-> "exact"], log, er) <=> over = pr
+
+\* what the forms, the schemes and the key policy do to that, for any two entries (it does not depend on what is
+\* inside an entry): exactly the log's own signature values over exactly this entry verify, and a verifier for a
+\* key outside RFC 6962 2.1.4 exists only under the opt-in
+SctFormLaw(e1, e2) ==
+  \A entry \in {e1, e2}, over \in {e1, e2}, scheme \in {"ecdsa", "rsa"}, compliant \in BOOLEAN :
+    LET log == [name |-> "L", scheme |-> scheme, compliant |-> compliant] IN
+    \A form \in SigForms(scheme), optIn \in BOOLEAN :
+      LET sct == [log |-> "L", over |-> over, form |-> form] IN
+      /\ Verifies(sct, log, entry) <=> (over = entry /\ SigFormOK(form, scheme))
+      /\ VerifySCT(sct, log, entry, optIn) <=> (Verifies(sct, log, entry) /\ (compliant \/ optIn))
+      /\ ~Verifies(sct, [log EXCEPT !.name = "X"], entry)
+      /\ ~Verifies(sct, log, Err("absent"))
+      /\ (form \in TrailingForms /\ scheme = "ecdsa") => (Verifies(sct, log, entry) <=> Verifies([sct EXCEPT !.form = "exact"], log, entry))
 
 (* ---------- SCT lists (RFC 6962 3.3: opaque SerializedSCT<1..2^16-1>; sct_list<1..2^16-1>) ---------- *)
 \* An SCT is a non-empty sequence of tokens (bytes, naturals); a list is framed by a length token per element and one
